@@ -62,3 +62,35 @@ pub fn complex() -> BoxedStrategy<String> {
 pub fn list() -> BoxedStrategy<String> {
     proptest::collection::vec(complex(), 1..4).prop_map(|v| v.join(", ")).boxed()
 }
+
+/// selector lists without `&`, placeholders or interpolation (usable at top level, never an error)
+pub fn safe_list() -> BoxedStrategy<String> {
+    let sub = prop_oneof![
+        4 => one_of(&[".c", ".d", ".e-f", "._g", ".\\31 x", ".é", "#i", "#j-k"]),
+        2 => one_of(&["[k]", "[k=v]", "[k~=\"v w\"]", "[k|='v']", "[k^=v i]", "[k$=v]", "[k*=\"é\"]"]),
+        2 => one_of(&[":hover", ":focus", ":first-child", ":nth-child(2n+1)", ":nth-of-type(-n+3)", ":lang(en)", ":not(.c)", ":is(.c, #i)", ":where(a > b)", ":has(> img)"]),
+    ];
+    let compound = (prop_oneof![5 => Just(String::new()), 4 => one_of(&["a", "b", "div", "p", "*", "h1"])], proptest::collection::vec(sub, 0..3), proptest::option::weighted(0.15, one_of(&["::before", "::after", "::selection"]))).prop_map(|(t, subs, pe)| {
+        let mut s = t;
+        for x in subs {
+            s.push_str(&x);
+        }
+        if let Some(p) = pe {
+            s.push_str(&p);
+        }
+        if s.is_empty() {
+            s.push_str(".c");
+        }
+        s
+    });
+    let complex = (proptest::collection::vec((compound.clone(), one_of(&[" ", " ", " > ", " + ", " ~ ", ">", "+", "~"])), 0..3), compound).prop_map(|(pre, last)| {
+        let mut s = String::new();
+        for (c, comb) in pre {
+            s.push_str(&c);
+            s.push_str(&comb);
+        }
+        s.push_str(&last);
+        s
+    });
+    proptest::collection::vec(complex, 1..4).prop_map(|v| v.join(", ")).boxed()
+}
